@@ -92,9 +92,34 @@ pub fn entries() -> Vec<Entry> {
     ]
 }
 
+/// the nine lossy typed document readers are modelled by `Model/TypedDoc.lean`; their requests carry
+/// a third argument, the E column of `typed.<kind>` (answers of the leaf codecs external to the model)
+pub fn typed_kind(entry: &str) -> Option<&'static str> {
+    Some(match entry {
+        "lctl.control" => "control",
+        "lctl.release" => "release",
+        "lctl.source" => "source",
+        "lctl.package" => "package",
+        "lctl.buildinfo" => "buildinfo",
+        "lctl.removal" => "removal",
+        "cpr.lossy" => "copyright",
+        "dep3.lossy" => "dep3",
+        "apt.repos" => "repos",
+        _ => return None,
+    })
+}
+
+/// emit a `total` request: 3-argument form for the typed document readers, 2-argument form otherwise
+fn req_total(out: &mut Out, entry: &str, text: &str) {
+    match typed_kind(entry).and_then(|k| crate::typeddoc::ext_column_kind(k, text)) {
+        Some(e) => out.req("total", &[entry.to_string(), es(text), e]),
+        None => out.req("total", &[entry.to_string(), es(text)]),
+    }
+}
+
 pub fn handle(op: &str, a: &[&str]) -> Option<Resp> {
     match (op, a) {
-        ("total", [entry, t]) => {
+        ("total", [entry, t]) | ("total", [entry, t, _]) => {
             let s = ds(t)?;
             let f = entries().into_iter().find(|(n, _)| n == entry)?.1;
             Some(Resp::ok(if f(&s) { "ok".to_string() } else { "err".to_string() }))
@@ -139,13 +164,13 @@ pub fn generate_c02(tier: &str, seed: u64, out: &mut Out) {
     // (a) deb822-shaped entry points: all strings over the deb822 class alphabet
     for t in strings_upto(&deb::ALPHABET, if thorough { 4 } else { 3 }) {
         for e in &deb_like {
-            out.req("total", &[e.to_string(), es(&t)]);
+            req_total(out, e, &t);
         }
     }
     // (b) value-shaped entry points: all strings over the relation alphabet
     for t in strings_upto(&REL_ALPHABET, if thorough { 4 } else { 3 }) {
         for e in &small {
-            out.req("total", &[e.to_string(), es(&t)]);
+            req_total(out, e, &t);
         }
     }
     // (b2) realistic values of the value-shaped entry points, with the white-space variants a field
@@ -188,7 +213,7 @@ pub fn generate_c02(tier: &str, seed: u64, out: &mut Out) {
         ];
         for t in variants.iter() {
             for e in &small {
-                out.req("total", &[e.to_string(), es(t)]);
+                req_total(out, e, &t);
             }
         }
     }
@@ -197,7 +222,7 @@ pub fn generate_c02(tier: &str, seed: u64, out: &mut Out) {
     for r in &rels {
         let doc = format!("Source: a\nBuild-Depends: {}\n\nPackage: b\nDepends: {}\nDescription: c\n {}\n", r, r, r);
         for e in ["ctl.control", "lctl.control", "ctl.source", "lctl.source", "ctl.package", "lctl.package", "deb.strict", "deb.lossy"] {
-            out.req("total", &[e.to_string(), es(&doc)]);
+            req_total(out, e, &doc);
         }
     }
     // (d) truncations and mutations of realistic documents for every entry point
@@ -225,11 +250,11 @@ pub fn generate_c02(tier: &str, seed: u64, out: &mut Out) {
                 t = deb::mutate(&mut rng, &t);
             }
             for e in es_all.iter() {
-                out.req("total", &[e.0.to_string(), es(&t)]);
+                req_total(out, e.0, &t);
             }
         }
         for e in es_all.iter() {
-            out.req("total", &[e.0.to_string(), es(s)]);
+            req_total(out, e.0, &s);
         }
     }
     // (e) unterminated groups at every nesting, through the relation entry points
@@ -237,7 +262,7 @@ pub fn generate_c02(tier: &str, seed: u64, out: &mut Out) {
         for tail in ["", "b", " ", "\n", "b c", "((", "[[", "<<", "${", ")", "]", ">", "}"] {
             let t = format!("{}{}", open, tail);
             for e in small.iter().filter(|n| n.starts_with("rel.") || n.starts_with("lrel.")) {
-                out.req("total", &[e.to_string(), es(&t)]);
+                req_total(out, e, &t);
             }
         }
     }
